@@ -127,7 +127,7 @@ def plan(tier, seed):
         if seq[0][1] not in VALID[:14]:  # the CLI validates the first row with its own reaction parser
             seq[0] = ("v", VALID[i % 14])
         shards.append({"cli": {"seq": seq, "bs": [None, 2, 1][i % 3],
-                               "cols": ["tag"] if i % 2 else ["tag", "tag2"]}})
+                               "cols": ["tag"] if i % 2 else ["tag", "tag2"], "blank_lines": i % 2 == 0}})
     return shards
 
 
@@ -234,6 +234,8 @@ def run_cli(spec, res):
             w.writerow(["reaction", "tag", "tag2"])
             for i, (_, v) in enumerate(seq):
                 w.writerow(["" if not isinstance(v, str) else v, "t%d" % i, "u%d" % i])
+                if spec.get("blank_lines") and i in (1, len(seq) - 2):
+                    f.write("\r\n")  # an empty line between records is not a record
         cmd = [common.PY, "-m", "synrbl", "run", src, "-o", dst, "-p", "1",
                "--out-columns", ",".join(spec["cols"])]
         if spec["bs"]:
